@@ -67,23 +67,28 @@ Print Assumptions C02_null_keys_never_match.
 Theorem C02_null_safe_matches_null : forall cs r a b,
   eval cs r a = VNull -> eval cs r b = VNull -> holds cs r (EBin NullSafeEq a b) = true.
 Proof. exact nullsafe_null_matches. Qed.
+Print Assumptions C02_null_safe_matches_null.
 
 Theorem C02_inner_is_filtered_product : forall m L R,
   inner m L R = map (fun p => fst p ++ snd p) (filter (fun p => m (fst p) (snd p)) (list_prod L R)).
 Proof. exact inner_is_filtered_product. Qed.
+Print Assumptions C02_inner_is_filtered_product.
 
 Theorem C02_left_is_inner_plus_padded : forall m nr L R,
   Permutation.Permutation (left m nr L R) (inner m L R ++ pad_unmatched_l m nr L R).
 Proof. exact left_is_inner_plus_unmatched. Qed.
+Print Assumptions C02_left_is_inner_plus_padded.
 
 Theorem C02_full_is_inner_plus_both : forall m nl nr L R,
   Permutation.Permutation (full m nl nr L R) (inner m L R ++ pad_unmatched_l m nr L R ++ pad_unmatched_r m nl L R).
 Proof. exact full_is_inner_plus_both. Qed.
+Print Assumptions C02_full_is_inner_plus_both.
 
 Theorem C02_outer_joins_pad : forall m nl nr L R,
   (forall l, In l L -> (forall r, In r R -> m l r = false) -> In (l ++ nulls nr) (full m nl nr L R)) /\
   (forall r, In r R -> (forall l, In l L -> m l r = false) -> In (nulls nl ++ r) (full m nl nr L R)).
 Proof. exact full_pads_both. Qed.
+Print Assumptions C02_outer_joins_pad.
 
 Theorem C02_semi_anti_keep_left_rows_once : forall m L R x,
   (count_occ row_eq_dec (semi m L R) x + count_occ row_eq_dec (anti m L R) x = count_occ row_eq_dec L x)%nat.
@@ -129,37 +134,46 @@ Proof.
   assert (R : refutes exA ctA [mkStep exB 2 (ctB 1) (OnNames ["k"]) "right" false] FNone) by refute.
   destruct R as [R1 [R2 R3]]. rewrite (H _ _ _ _ _ R1 R2) in R3. discriminate.
 Qed.
+Print Assumptions C02_refuted_right_name_join.
 
 Theorem C02_refuted_right_expr_join :
   refutes exA ctA [mkStep exB 2 (ctB 1) (OnExprs [UBin Eq (UCol (RDf 0 1 false "k")) (UCol (RDf 1 3 false "k"))]) "right_outer" false] FNone.
 Proof. refute. Qed.
+Print Assumptions C02_refuted_right_expr_join.
 
 (** no condition and a kind other than inner/cross: executed as a product *)
 Theorem C02_refuted_on_none_semi : refutes exA ctA [mkStep exB 2 (ctB 1) OnNone "semi" false] FNone.
 Proof. refute. Qed.
+Print Assumptions C02_refuted_on_none_semi.
 Theorem C02_refuted_on_none_left_empty_right :
   refutes exA ctA [mkStep (mkFrame ["k"; "v"; "w"] []) 2 (ctB 1) OnNone "left" false] FNone.
 Proof. refute. Qed.
+Print Assumptions C02_refuted_on_none_left_empty_right.
 
 (** spellings Spark lower-cases *)
 Theorem C02_refuted_upper_case_full : refutes exA ctA [mkStep exR 3 (ctC 1) (OnNames ["k"]) "FULL" false] FNone.
 Proof. refute. Qed.
+Print Assumptions C02_refuted_upper_case_full.
 Theorem C02_refuted_upper_case_left_semi : refutes exA ctA [mkStep exB 2 (ctB 1) (OnNames ["k"]) "LEFT_SEMI" false] FNone.
 Proof. refute. Qed.
+Print Assumptions C02_refuted_upper_case_left_semi.
 
 (** the key of a full outer name join is the COALESCE only in the join's own select list *)
 Theorem C02_refuted_full_then_select_key :
   refutes exA ctA [mkStep exR 3 (ctC 1) (OnNames ["k"]) "full" false] (FSelect [(UCol (RName "k"), "k"); (UCol (RName "u"), "u")]).
 Proof. refute. Qed.
+Print Assumptions C02_refuted_full_then_select_key.
 Theorem C02_refuted_full_then_name_join :
   refutes exA ctA [mkStep exR 3 (ctC 1) (OnNames ["k"]) "full" false; mkStep exX 2 (ctB 2) (OnNames ["k"]) "full" false] FNone.
 Proof. refute. Qed.
+Print Assumptions C02_refuted_full_then_name_join.
 
 (** a right join later in a chain resolves left-to-right: the key is the left side's *)
 Theorem C02_refuted_right_join_not_first :
   refutes exA ctA [mkStep exD 4 (ctD 1) (OnExprs [UBin Eq (UCol (RDf 0 1 false "k")) (UCol (RDf 1 7 false "k2"))]) "left" false;
                    mkStep (mkFrame ["k"; "u"] [[VInt 5; VInt 7]]) 3 (ctC 2) (OnNames ["k"]) "right" false] FNone.
 Proof. refute. Qed.
+Print Assumptions C02_refuted_right_join_not_first.
 
 (** a column dropped by a name join shifts the position-based resolution of a later table's same-named column *)
 Theorem C02_refuted_dropped_key_shifts :
